@@ -2,7 +2,7 @@
     track, lowering / raising the bound), and the specification of [eval] for any reader that
     meets [RSpec]. *)
 From Coq Require Import List ZArith Bool Arith Lia.
-From LV Require Import Reactive.Graph Reactive.GraphLemmas Reactive.GraphInvariant
+From LV Require Import Reactive.Graph Reactive.GraphLemmas Reactive.GraphReplay Reactive.GraphInvariant
                        Reactive.GraphMarkProofs Reactive.GraphPullBase Reactive.GraphPullSteps
                        Reactive.GraphPullDefs.
 Import ListNotations.
@@ -156,6 +156,14 @@ Proof.
   destruct (il && Nat.eqb o k && Nat.ltb o (nlen s)) eqn:E; auto.
   right. apply andb_prop in E as [E _]. apply andb_prop in E as [_ E]. apply Nat.eqb_eq in E. subst.
   nsimpl. auto.
+Qed.
+
+Lemma log_read_rlog_who c j v t s w :
+  fst c = Some w -> w < nlen s ->
+  rlog (getn (log_read c j v t true s) w) = rlog (getn s w) ++ [(j, v, t)].
+Proof.
+  intros Hw Hl. rewrite log_read_getn, Hw. cbn [andb]. rewrite Nat.eqb_refl.
+  apply Nat.ltb_lt in Hl. rewrite Hl. reflexivity.
 Qed.
 
 Lemma who_on_stack stk c w : ctx_ok stk c -> fst c = Some w -> In w stk.
@@ -352,42 +360,59 @@ Proof.
 Qed.
 
 (* ---------------------------------------------------------------- eval, for a pure body *)
+Lemma Growth_refl c s (P : list lentry -> Prop) : P [] -> Growth c s s P.
+Proof. intros H w _. exists []. rewrite app_nil_r. auto. Qed.
+
 Lemma eval_spec i R : RSpec i R ->
   forall e c s stk t s' v,
     expr_ok p i false e -> i <= t -> Inv stk t s -> ctx_ok stk c -> TopOK c s ->
     eval p R false c e s = (s', v) ->
-    Inv stk t s' /\ TopOK c s' /\ PullRel i stk (fst c) s s'.
+    Inv stk t s' /\ TopOK c s' /\ PullRel i stk (fst c) s s' /\
+    Growth c s s' (fun D => forall rest, rexpr (rlvl p i) (snd c) e (D ++ rest) = Some (v, rest)).
 Proof.
   intros HR e. induction e as [z|j|j|a IHa|a IHa b IHb|a IHa b IHb|g IHg a IHa b IHb|w a IHa];
     intros c s stk t s' v Hok Hit I C T Hev; cbn [eval] in Hev; cbn [expr_ok] in Hok.
-  - inversion Hev; subst. split; auto. split; auto. apply PullRel_refl.
+  - inversion Hev; subst. split; auto. split; auto. split; [apply PullRel_refl|].
+    apply Growth_refl. intros rest. reflexivity.
   - destruct Hok as [Hj He].
-    destruct (HR true c j s stk t s' v Hj ltac:(lia) He I C T Hev) as (I' & T' & P' & _).
-    split; auto. split; auto. eapply PullRel_weaken; [|exact P']. lia.
+    destruct (HR true c j s stk t s' v Hj ltac:(lia) He I C T Hev) as (I' & T' & P' & _ & _ & G').
+    split; auto. split; auto. split; [eapply PullRel_weaken; [|exact P']; lia|]. exact G'.
   - destruct Hok as [Hj He].
-    destruct (HR false c j s stk t s' v Hj ltac:(lia) He I C T Hev) as (I' & T' & P' & _).
-    split; auto. split; auto. eapply PullRel_weaken; [|exact P']. lia.
+    destruct (HR false c j s stk t s' v Hj ltac:(lia) He I C T Hev) as (I' & T' & P' & _ & _ & G').
+    split; auto. split; auto. split; [eapply PullRel_weaken; [|exact P']; lia|]. exact G'.
   - apply (IHa (fst c, false) s stk t s' v Hok Hit I (ctx_ok_untr stk c C) T Hev).
   - destruct Hok as [Ha Hb].
     destruct (eval p R false c a s) as [s1 x] eqn:E1.
     destruct (eval p R false c b s1) as [s2 y] eqn:E2. inversion Hev; subst.
-    destruct (IHa c s stk t s1 x Ha Hit I C T E1) as (I1 & T1 & P1).
-    destruct (IHb c s1 stk t s' y Hb Hit I1 C T1 E2) as (I2 & T2 & P2).
-    split; auto. split; auto. eapply PullRel_trans; eauto.
+    destruct (IHa c s stk t s1 x Ha Hit I C T E1) as (I1 & T1 & P1 & G1).
+    destruct (IHb c s1 stk t s' y Hb Hit I1 C T1 E2) as (I2 & T2 & P2 & G2).
+    split; auto. split; auto. split; [eapply PullRel_trans; eauto|].
+    intros w0 Hw. destruct (G1 w0 Hw) as (D1 & R1 & Q1). destruct (G2 w0 Hw) as (D2 & R2 & Q2).
+    exists (D1 ++ D2). split; [rewrite R2, R1, app_assoc; reflexivity|].
+    intros rest. cbn [rexpr]. rewrite <- app_assoc, Q1, Q2. reflexivity.
   - destruct Hok as [Ha Hb].
     destruct (eval p R false c a s) as [s1 x] eqn:E1.
     destruct (eval p R false c b s1) as [s2 y] eqn:E2. inversion Hev; subst.
-    destruct (IHa c s stk t s1 x Ha Hit I C T E1) as (I1 & T1 & P1).
-    destruct (IHb c s1 stk t s' y Hb Hit I1 C T1 E2) as (I2 & T2 & P2).
-    split; auto. split; auto. eapply PullRel_trans; eauto.
+    destruct (IHa c s stk t s1 x Ha Hit I C T E1) as (I1 & T1 & P1 & G1).
+    destruct (IHb c s1 stk t s' y Hb Hit I1 C T1 E2) as (I2 & T2 & P2 & G2).
+    split; auto. split; auto. split; [eapply PullRel_trans; eauto|].
+    intros w0 Hw. destruct (G1 w0 Hw) as (D1 & R1 & Q1). destruct (G2 w0 Hw) as (D2 & R2 & Q2).
+    exists (D1 ++ D2). split; [rewrite R2, R1, app_assoc; reflexivity|].
+    intros rest. cbn [rexpr]. rewrite <- app_assoc, Q1, Q2. reflexivity.
   - destruct Hok as (Hg & Ha & Hb).
     destruct (eval p R false c g s) as [s1 x] eqn:E1.
-    destruct (IHg c s stk t s1 x Hg Hit I C T E1) as (I1 & T1 & P1).
-    destruct (Z.eqb x 0).
-    + destruct (IHb c s1 stk t s' v Hb Hit I1 C T1 Hev) as (I2 & T2 & P2).
-      split; auto. split; auto. eapply PullRel_trans; eauto.
-    + destruct (IHa c s1 stk t s' v Ha Hit I1 C T1 Hev) as (I2 & T2 & P2).
-      split; auto. split; auto. eapply PullRel_trans; eauto.
+    destruct (IHg c s stk t s1 x Hg Hit I C T E1) as (I1 & T1 & P1 & G1).
+    destruct (Z.eqb x 0) eqn:Ex.
+    + destruct (IHb c s1 stk t s' v Hb Hit I1 C T1 Hev) as (I2 & T2 & P2 & G2).
+      split; auto. split; auto. split; [eapply PullRel_trans; eauto|].
+      intros w0 Hw. destruct (G1 w0 Hw) as (D1 & R1 & Q1). destruct (G2 w0 Hw) as (D2 & R2 & Q2).
+      exists (D1 ++ D2). split; [rewrite R2, R1, app_assoc; reflexivity|].
+      intros rest. cbn [rexpr]. rewrite <- app_assoc, Q1, Ex, Q2. reflexivity.
+    + destruct (IHa c s1 stk t s' v Ha Hit I1 C T1 Hev) as (I2 & T2 & P2 & G2).
+      split; auto. split; auto. split; [eapply PullRel_trans; eauto|].
+      intros w0 Hw. destruct (G1 w0 Hw) as (D1 & R1 & Q1). destruct (G2 w0 Hw) as (D2 & R2 & Q2).
+      exists (D1 ++ D2). split; [rewrite R2, R1, app_assoc; reflexivity|].
+      intros rest. cbn [rexpr]. rewrite <- app_assoc, Q1, Ex, Q2. reflexivity.
   - destruct Hok as (Hf & _). discriminate.
 Qed.
 
